@@ -90,7 +90,7 @@ func VerifV9CacheTraces() {
 	peer := func() { m.retrieve(k2, a) } // (no peer RPC for v9: a second lookup instead)
 	decT := func() { NewDecoder(a, verifTplMsg(k1)).Decode(m) }
 	decD := func() { NewDecoder(a, verifDataMsg(k3)).Decode(m) }
-	switch verifSplit(6) {
+	switch verifSplit(10) {
 	case 0:
 		verifConcurrent(ins1, ins2, get3)
 	case 1:
@@ -103,6 +103,15 @@ func VerifV9CacheTraces() {
 		verifConcurrent(decT, decD, dump)
 	case 5:
 		verifConcurrent(decT, decT, decD)
+	// four threads (thorough tier)
+	case 6:
+		verifConcurrent(ins1, ins2, dump, get3)
+	case 7:
+		verifConcurrent(decT, decD, dump, peer)
+	case 8:
+		verifConcurrent(dump, dump, ins1, get1)
+	case 9:
+		verifConcurrent(ins1, ins2, get1, get3)
 	}
 	verifReach("end")
 }
